@@ -67,8 +67,11 @@ def advance(loop, dt):
     def f():
         loop.vt += dt
     loop.call_soon_threadsafe(f)
-    pump(loop)
-    pump(loop)
+    # iteration k runs f (and possibly the first pump); iteration k + 1 moves the timers that are now due to the ready list BEHIND a
+    # pump that was already queued - so that pump returns before they ran; a pump queued after it returned runs in iteration k + 2,
+    # after them.  Four pumps: the due timers (and what they schedule with call_soon) have run when advance() returns.
+    for _ in range(4):
+        pump(loop)
 
 
 def in_thread(fn, with_own_loop=False):
